@@ -1,6 +1,6 @@
 use crate::internal::expr::Expr;
 use crate::internal::stringpool::StringPool;
-use crate::internal::table::{Row, Rows, Table};
+use crate::internal::table::{Row, Rows, Table, MAX_NUM_TABLE_ROWS};
 use crate::internal::value::{Value, ValueRef};
 use cfb;
 use std::collections::{BTreeMap, HashSet};
@@ -230,6 +230,17 @@ impl Insert {
                 );
             }
             new_keys_set.insert(keys);
+        }
+        // A table cannot hold more rows than can be read back.
+        if rows_map.len() + self.new_rows.len() > MAX_NUM_TABLE_ROWS {
+            invalid_input!(
+                "Cannot insert {} rows into table {:?}, which already has {}: \
+                 a table can hold at most {} rows",
+                self.new_rows.len(),
+                self.table_name,
+                rows_map.len(),
+                MAX_NUM_TABLE_ROWS
+            );
         }
         // Insert the new rows into the table.
         for values in self.new_rows.into_iter() {
